@@ -20,6 +20,9 @@ def base_specs(D):
     out.append(dict(name="RandomDiscontinuities", kw=dict(num_discontinuities=2, zero_mean=False, domain_extent=2.5, value_range=[0.5, 1.5])))
     out.append(dict(name="RandomGaussianBlobs", kw=dict(num_blobs=2)))
     out.append(dict(name="RandomGaussianBlobs", kw=dict(num_blobs=1, one_complement=True, domain_extent=3.0)))
+    out.append(dict(name="RandomGaussianBlobs", kw=dict(num_blobs=1)))
+    out.append(dict(name="RandomGaussianBlobs", kw=dict(num_blobs=1, position_range=[0.2, 0.8], variance_range=[0.04, 0.08])))
+    out.append(dict(name="RandomGaussianBlobs", kw=dict(num_blobs=1, position_range=[0.3, 0.5], variance_range=[0.04, 0.08], one_complement=True, domain_extent=2.0)))
     out.append(dict(name="WhiteNoise", kw=dict()))
     out.append(dict(name="WhiteNoise", kw=dict(std=2.5)))
     if D == 1:
